@@ -32,6 +32,22 @@ def unit_design(entry, cfg, mode):
         dut = D(hw, 'dut')
         if mode == 'direct':
             ins, outs = entry.build(dut, cfg, hw.wire)
+        elif mode == 'clash':
+            # the nets the parent connects to the block carry the names the block uses for its own internal wires
+            pool = internal_wire_names(entry, cfg)
+            if not pool:
+                raise ValueError('no internal wires')
+            used = set()
+            k = [0]
+
+            def mk(name, w):
+                n = pool[k[0] % len(pool)]
+                k[0] += 1
+                if n in used:
+                    n = name
+                used.add(n)
+                return hw.wire(n, w)
+            ins, outs = entry.build(dut, cfg, mk)
         elif mode == 'nested':
             M = cosim.Dut.cls('Mid')
             mid = M(dut, 'mid')
@@ -58,6 +74,28 @@ def unit_design(entry, cfg, mode):
             raise ValueError(mode)
         cosim.wrap_ports(dut, ins, outs)
     return cosim.Design(hw, dut, list(ins), list(outs), '%s%r/%s' % (entry.name, cfg, mode))
+
+
+def internal_wire_names(entry, cfg):
+    """Names of the wires a block creates inside itself (any depth), multi-bit ones first."""
+    import py4hw
+    hw = py4hw.HWSystem()
+    with muted():
+        entry.build(hw, cfg, hw.wire)
+    names = []
+
+    def walk(o):
+        for n, w in getattr(o, '_wires', {}).items():
+            names.append((0 if w.getWidth() > 1 else 1, len(names), n))
+        for c in o.children.values():
+            walk(c)
+    for c in hw.children.values():
+        walk(c)
+    out = []
+    for _, _, n in sorted(names):
+        if n not in out:
+            out.append(n)
+    return out
 
 
 def pair_design(entry, cfg1, cfg2):
@@ -353,7 +391,7 @@ def _units(run, tier, seed, shard, deadline):
         elif not quick and len(cfgs) > 120:
             cfgs = rnd.sample(cfgs, 120)
         for cfg in cfgs:
-            for mode in ('direct', 'nested', 'twice'):
+            for mode in ('direct', 'nested', 'twice', 'clash'):
                 jobs.append((e, cfg, mode))
     # pairs of different configurations of one block in one design
     for e in catalog.ENTRIES:
@@ -372,7 +410,7 @@ def _units(run, tier, seed, shard, deadline):
         try:
             des = pair_design(e, cfg[0], cfg[1]) if mode == 'pair' else unit_design(e, cfg, mode)
         except Exception as ex:
-            run.count('unit_build_failed')
+            run.count('unit_no_internal_wires' if mode == 'clash' else 'unit_build_failed')
             continue
         vecs = cosim.gen_vectors(des.ins, rnd, 30 if quick else 120, exhaustive_bits=8 if quick else 11)
         out = cosim.cosim(des, vecs, False)
